@@ -1,0 +1,80 @@
+//go:build verif
+
+// Package verifhook provides observation/fault-injection points for the
+// verification harness. With the "verif" build tag the harness can install
+// handlers; without it every function is an empty inlinable stub.
+package verifhook
+
+import "sync/atomic"
+
+// Enabled reports whether the hooks are compiled in.
+const Enabled = true
+
+type (
+	PointFn func(kind, arg string) error
+	WriteFn func(path string, size int) (allow int, err error)
+	FreeFn  func(root string, actual uint64) uint64
+)
+
+var (
+	pointH atomic.Pointer[PointFn]
+	writeH atomic.Pointer[WriteFn]
+	freeH  atomic.Pointer[FreeFn]
+)
+
+// SetPoint installs (or with nil removes) the handler called by Point.
+func SetPoint(f PointFn) {
+	if f == nil {
+		pointH.Store(nil)
+		return
+	}
+	pointH.Store(&f)
+}
+
+// SetWrite installs (or with nil removes) the handler called by BeforeWrite.
+func SetWrite(f WriteFn) {
+	if f == nil {
+		writeH.Store(nil)
+		return
+	}
+	writeH.Store(&f)
+}
+
+// SetFree installs (or with nil removes) the handler called by Free.
+func SetFree(f FreeFn) {
+	if f == nil {
+		freeH.Store(nil)
+		return
+	}
+	freeH.Store(&f)
+}
+
+// Point marks a persistent-state mutation or another interesting step. A
+// non-nil result is returned by the instrumented function instead of
+// performing the step.
+func Point(kind, arg string) error {
+	if h := pointH.Load(); h != nil {
+		return (*h)(kind, arg)
+	}
+
+	return nil
+}
+
+// BeforeWrite is consulted before a content file write of size bytes. If err
+// is non-nil only the first allow bytes are written and err is returned.
+func BeforeWrite(path string, size int) (allow int, err error) {
+	if h := writeH.Load(); h != nil {
+		return (*h)(path, size)
+	}
+
+	return size, nil
+}
+
+// Free lets the harness override the free space reported for a root.
+func Free(root string, actual uint64) uint64 {
+	if h := freeH.Load(); h != nil {
+		return (*h)(root, actual)
+	}
+
+	return actual
+}
